@@ -9,7 +9,7 @@ From Coq Require Import List NArith ZArith Bool Arith Lia.
 From Coq Require Import Init.Byte.
 From FFS Require Import Base.Res Base.Bytes Abi.Types Abi.ModelTypes Abi.EntryModel Abi.EntrySpec.
 From FFS Require Import AbiType.Spec Abi.EntryProofs Abi.EntryProofsEvent Abi.EntryLink.
-From FFS Require AbiType.Syntax.
+From FFS Require AbiType.Syntax Abi.EncModel Abi.EncProofs3 Abi.Spec Abi.EntryInst.
 Import ListNotations.
 
 (* 1. The signature is name(canonical type, ...): aliases expanded, tuples as parenthesised lists
@@ -226,6 +226,21 @@ Theorem C12_signature_invalid_json :
 Proof. exact signature_invalid_json. Qed.
 Print Assumptions C12_signature_invalid_json.
 
+(* 9. Instantiated with the encoder model of C02 (Abi/EncModel.v) and its theorem: the call data of a
+      well-typed argument tuple is selector ++ enc((T1,...,Tn), arguments) of the Solidity specification. *)
+Theorem C12_calldata_is_spec :
+  forall (H : bytes -> bytes), (forall m, length (H m) = 32%nat) ->
+  forall (e : entry) (cs : list tcomp) (x : cval),
+    tree_children (e_inputs e) = Ok cs -> all_suffix_canonical cs ->
+    let tc := TCTuple cs [] in
+    tc_wf tc = true -> tc_no_fixed_point tc = true -> tc_no_zero_len tc = true ->
+    typed_as tc x = true -> Abi.EncProofs3.values_ok x = true ->
+    Abi.Spec.well_typed (ty_of tc) (val_of x) = true -> Abi.EncProofs3.weight_ok (val_of x) ->
+    EncodeCallData H Abi.EncModel.EncodeABIData e x =
+      Ok (selector_spec H (e_name e) (map ty_of cs) ++ Abi.Spec.enc (TTuple (map ty_of cs)) (val_of x)).
+Proof. exact Abi.EntryInst.calldata_is_spec. Qed.
+Print Assumptions C12_calldata_is_spec.
+
 (* ---------- non-vacuity ---------- *)
 From Coq Require Import String.
 From FFS Require Abi.EncModel Abi.DecModel Rlp.Model.
@@ -258,6 +273,21 @@ Example C12_signature_nonvacuous :
   tree_children (e_inputs e) = Ok cs /\ all_suffix_canonical cs /\
   Signature e = Ok (Sb "f(address,uint256,(uint8[2],string)[])").
 Proof. cbv zeta. split; [reflexivity|]. split; [repeat split; try reflexivity; cbn; lia|]. vm_compute. reflexivity. Qed.
+
+Example C12_calldata_is_spec_nonvacuous :
+  let cs := [tAddr "to"; tU256 "amount"] in
+  let args := CV (Some (TCTuple cs []))
+                 [CV (Some (tAddr "to")) [] (GBigInt 255); CV (Some (tU256 "amount")) [] (GBigInt 1000)] GNil in
+  tree_children (e_inputs ex_transfer) = Ok cs /\ all_suffix_canonical cs /\
+  tc_wf (TCTuple cs []) = true /\ tc_no_fixed_point (TCTuple cs []) = true /\ tc_no_zero_len (TCTuple cs []) = true /\
+  typed_as (TCTuple cs []) args = true /\ Abi.EncProofs3.values_ok args = true /\
+  Abi.Spec.well_typed (ty_of (TCTuple cs [])) (val_of args) = true /\ Abi.EncProofs3.weight_ok (val_of args).
+Proof.
+  cbv zeta. split; [reflexivity|]. split; [cbn; repeat split; vm_compute; reflexivity|].
+  split; [vm_compute; reflexivity|]. split; [vm_compute; reflexivity|]. split; [vm_compute; reflexivity|].
+  split; [vm_compute; reflexivity|]. split; [vm_compute; reflexivity|]. split; [vm_compute; reflexivity|].
+  unfold Abi.EncProofs3.weight_ok. vm_compute. reflexivity.
+Qed.
 
 Example C12_calldata_nonvacuous :
   let args := CV (Some (TCTuple [tAddr "to"; tU256 "amount"] []))
